@@ -145,7 +145,20 @@ def hp_value(v):
     return f.numerator, f.denominator
 
 
-def run_scenario(sc):
+# (simulator, route set): trading timeframe, data-route timeframe or None, candle step of the fast simulator
+RUN_CONFIGS = [("step", "1m", None, 1), ("fast", "1m", None, 1), ("step", "5m", None, 5), ("fast", "5m", None, 5),
+               ("step", "3m", "5m", 1), ("fast", "3m", "5m", 1), ("step", "15m", "5m", 5), ("fast", "15m", "5m", 5)]
+
+
+def which_path(sc):
+    if sc["hasExplicit"]:
+        return "explicit+dna" if sc["dna"] and sc["decls"] else "explicit"
+    if sc["dna"] and sc["decls"]:
+        return "dna"
+    return "defaults" if sc["decls"] else "nothing"
+
+
+def run_scenario(sc, cfg=RUN_CONFIGS[0]):
     """one real research.backtest; returns the events (self.hp at the first and at the last step)"""
     from jesse.strategies import Strategy
     from .. import session
@@ -195,8 +208,11 @@ def run_scenario(sc):
         explicit = {}
         for name, n, d in sc["explicit"]:
             explicit[name] = n if d == 1 else n / d
-    candles = {'BTC-USDT': session.lattice_walk(12, 5)}
-    out = session.run_backtest(None, session.futures_config(), candles, strategy_cls=S, hyperparameters=explicit)
+    sim, tf, dtf, _step = cfg
+    candles = {'BTC-USDT': session.lattice_walk(60, 5)}          # 60 minutes: a multiple of every timeframe used
+    out = session.run_backtest(None, session.futures_config(), candles, strategy_cls=S, hyperparameters=explicit,
+                               routes=[{'symbol': 'BTC-USDT', 'timeframe': tf}],
+                               data_routes=([{'symbol': 'BTC-USDT', 'timeframe': dtf}] if dtf else None), fast=(sim == "fast"))
     if out["exc"] is not None and not seen:
         seen.append({"at": "first", "exc": out["exc"].split(":")[0], "set": False, "vals": [], "intsok": True})
     return seen
@@ -329,34 +345,60 @@ def run(ctx):
         raise Machinery("HpInjection export produced no scenarios")
     hp_traces = []
     combos = set()
-    for k, s in enumerate(scen):
-        sc = s["sc"]
-        ev = run_scenario(sc)
-        hp_traces.append({"id": k + 1, "hdr": sc, "ev": ev})
+    cells = {}
+    counters = {}
+    plan = []
+    for s_ in scen:
+        sc = s_["sc"]
+        w = which_path(sc)
+        if w in ("defaults", "nothing"):
+            cfgs = RUN_CONFIGS                                   # few scenarios: every simulator / route set
+        else:
+            i = counters.get(w, 0)
+            counters[w] = i + 1
+            cfgs = [RUN_CONFIGS[i % len(RUN_CONFIGS)]]
+        for cfg in cfgs:
+            plan.append((s_, cfg))
+    for k, (s_, cfg) in enumerate(plan):
+        sc = s_["sc"]
+        ev = run_scenario(sc, cfg)
+        hp_traces.append({"id": k + 1, "hdr": dict(sc, sim=cfg[0], routes="%s%s" % (cfg[1], "+" + cfg[2] if cfg[2] else "")), "ev": ev,
+                          "_cfg": cfg})
         combo = (sc["hasExplicit"], len(sc["dna"]) > 0, len(sc["decls"]) > 0)
         combos.add(combo)
-        ctx.nontrivial.add(("hp", json.dumps(sc, sort_keys=True)))
+        cell = (which_path(sc), cfg[0], "step=1" if cfg[3] == 1 else "step>1")
+        cells[cell] = cells.get(cell, 0) + 1
+        ctx.nontrivial.add(("hp", json.dumps(sc, sort_keys=True), cfg[0], cfg[1], cfg[2]))
         if combo == (False, True, True) and not any(x.get("kind", "").startswith("HP") for x in samples):
-            samples.append({"kind": "HP scenario through research.backtest", "scenario": sc, "expected_by_TLC": s["expected"],
-                            "observed": ev})
+            samples.append({"kind": "HP scenario through research.backtest", "scenario": sc, "simulator": cfg[0],
+                            "routes": hp_traces[-1]["hdr"]["routes"], "expected_by_TLC": s_["expected"], "observed": ev})
+    for w in ("defaults", "dna", "explicit", "explicit+dna"):
+        for sim in ("step", "fast"):
+            for st in ("step=1", "step>1"):
+                if not cells.get((w, sim, st)):
+                    raise Machinery("HpInjection: no scenario run for cell %r" % ((w, sim, st),))
+    cfg_of = {t["id"]: t.pop("_cfg") for t in hp_traces}
     v2, res2 = tlc.validate_traces("TraceHp", "TraceHp.cfg", hp_traces, ctx.scratch, parts=4, timeout=600)
     hp_bad = 0
     for i, (l, verdict) in sorted(v2.items()):
         if verdict != "ok":
             hp_bad += 1
             sc = hp_traces[i - 1]["hdr"]
-            ctx.violation(hp_sig(sc, verdict), "scenario %s: %s; observed %s" % (json.dumps(sc)[:400], verdict,
+            ctx.violation(hp_sig(sc, verdict), "scenario %s: %s; observed %s" % (json.dumps(sc)[:500], verdict,
                                                                                json.dumps(hp_traces[i - 1]["ev"])[:400]),
-                          {"kind": "hp", "sc": sc})
-    ctx.log("HP: %d scenarios (%d of 8 combinations), %d rejected" % (len(scen), len(combos), hp_bad))
-    ctx.evaluations = decodes + len(scen)
+                          {"kind": "hp", "sc": {k_: v_ for k_, v_ in sc.items() if k_ not in ("sim", "routes")},
+                           "cfg": list(cfg_of[i])})
+    ctx.log("HP: %d scenarios, %d runs (%d of 8 combinations, %d (path, simulator, step) cells), %d rejected" % (
+        len(scen), len(plan), len(combos), len(cells), hp_bad))
+    ctx.evaluations = decodes + len(plan)
     ctx.coverage.update({
         "traces_validated_against_impl": len(traces) + len(hp_traces),
         "decodes_checked": decodes, "grid_declarations": n_grid, "declaration_traces": n_decl,
         "seq_traces": tid - n_decl, "rejected_traces": bad + hp_bad,
         "alphabet": {"length": len(charset), "first": ord(charset[0]), "last": ord(charset[-1])},
         "model_agreement": agree, "model_counterexample_fractional_int": model_cex,
-        "hp_scenarios": len(scen), "hp_combinations_of_8": len(combos),
+        "hp_scenarios": len(scen), "hp_runs": len(plan),
+        "hp_cells_path_simulator_step": {"%s|%s|%s" % c: n for c, n in sorted(cells.items())}, "hp_combinations_of_8": len(combos),
         "trace_events_checked_by_tlc": sum(x.generated for x in results) + sum(x.generated for x in res2),
         "knife_edge": "rounding ties exist only at the first/last letter (TiesOnlyAtEnds, checked by TLC), where the float "
                       "computation is exact; none skipped",
@@ -370,7 +412,7 @@ def run(ctx):
 def replay(ctx, rp):
     p = rp["payload"]
     if p["kind"] == "hp":
-        ev = run_scenario(p["sc"])
+        ev = run_scenario(p["sc"], tuple(p["cfg"]) if p.get("cfg") else RUN_CONFIGS[0])
         v, _ = tlc.validate_traces("TraceHp", "TraceHp.cfg", [{"id": 1, "hdr": p["sc"], "ev": ev}], ctx.scratch, parts=1)
         l, verdict = v[1]
         print("replay verdict:", l, verdict, json.dumps(ev))
